@@ -918,10 +918,10 @@ func (c *Ctx) checkCountingStore() {
 	// encoder wrapper: callback only when the encoder returned nil; sizedStore returns the captured count of its own Store
 	for _, fn := range c.G.Funcs() {
 		rel, ok := c.P.PkgOf(fn)
-		if !ok || rel != "data/builder" || fn.Parent() == nil {
+		if !ok || rel != "data/builder" || fn.Synthetic != "" {
 			continue
 		}
-		// closure of shape func(node, writer) error calling encoder(node, &bc) then byteCountCb(bc.bc)
+		// closure (or method used as a method value) of shape func(node, writer) error calling encoder(node, &bc) then byteCountCb(bc.bc)
 		if fn.Signature.Params().Len() != 2 || fn.Signature.Results().Len() != 1 || !core.IsErrorType(fn.Signature.Results().At(0).Type()) {
 			continue
 		}
